@@ -318,8 +318,12 @@ def instances(tier, seed):
             for mi in ((1,) if q else (0, 1, 2)):
                 out.append(Instance('wrapper/%s/%s/maxiter=%d' % (kind, cfg, mi), S.wrapper(kind, cfg, 1, mi, oblig)))
     pool = BOX_POOL[:1] + BOX_POOL[3:4] + BOX_POOL[6:7] if q else BOX_POOL
-    for bi, (lo, hi) in enumerate(BOX_POOL if not q else BOX_POOL[:4]):
+    for bi, (lo, hi) in enumerate(BOX_POOL[:6] if not q else BOX_POOL[:4]):
         for mode in ('tight', 'clip=True', 'clip=False'):
+            if bi == 4 and mode == 'clip=False':
+                continue        # (a 1e20-wide side: exact-real redraws do not replay on floats)
+            # (the non-decimal boxes 6, 7 reach this kernel as 15-digit text, i.e. shifted by ~1e-16 relative: they are exercised
+            # through the mode-step instances, whose oracle is the float box and which never evaluate outside it)
             out.append(Instance('bounds-constraint/%s/box%d' % (mode, bi), bounds_constraint(mode, lo, hi)))
     for bi, (lo, hi) in enumerate(pool):
         for mode in ('tight', 'clip=True', 'clip=False', 'tight=False'):
@@ -329,6 +333,8 @@ def instances(tier, seed):
                 if q and BOX_POOL.index((lo, hi)) == 6 and mode not in ('tight', 'tight=False'):
                     continue
                 for cons in ((None,) if (q or len(lo) > 1) else (None, 'pure')):      # (2-D boxes with extra constraints: >150k paths each)
+                    if kind in ('DE', 'DE2') and mode == 'clip=False' and (len(lo) > 1 or cons or BOX_POOL.index((lo, hi)) not in (0, 2, 6)):
+                        continue        # (symbolic in-box redraws of every member: 10^5..10^6 paths each; three 1-D boxes are kept)
                     out.append(Instance('mode-step/%s/%s/box%d/%s' % (kind, mode, BOX_POOL.index((lo, hi)), cons or 'nocons'),
                                         mode_step(kind, mode, lo, hi, cons)))
     return out
